@@ -8,6 +8,7 @@ import (
 	"github.com/containerd/nri/pkg/stub"
 
 	"github.com/containers/nri-plugins/pkg/resmgr/cache"
+	"github.com/containers/nri-plugins/pkg/resmgr/events"
 	"github.com/containers/nri-plugins/pkg/resmgr/policy"
 )
 
@@ -39,4 +40,22 @@ func VerifStopEvents(rm ResourceManager) {
 		close(m.stop)
 		m.stop = nil
 	}
+}
+
+// VerifDeliverPolicyEvent plays the part of the event loop's policy-event
+// delivery, which is commented out at this commit (processEvent drops
+// *events.Policy): under the pipeline lock the event is handed to the policy
+// and, if the policy reports changes, the pending updates are pushed.
+func VerifDeliverPolicyEvent(rm ResourceManager, e *events.Policy) (bool, error) {
+	m := rm.(*resmgr)
+	m.Lock()
+	defer m.Unlock()
+	changes, err := m.policy.HandleEvent(e)
+	if err != nil {
+		return changes, err
+	}
+	if changes {
+		return changes, m.nri.updateContainers()
+	}
+	return false, nil
 }
